@@ -131,7 +131,14 @@ var bases = []string{
 	// percent-escapes in the configured base: it must reach the wire as given
 	// (and must never be used as a format string)
 	"http://osm.example.test/osm%20mirror/a%2Fb/api/0.6",
+	// edge pass only (index >= nFullBases): an IPv6 literal with a port and no
+	// path at all (the documented paths then start at the root)
+	"http://[2001:db8::1]:3000",
 }
+
+// nFullBases: bases[:nFullBases] go through the full product, the rest through
+// the edge pass (reduced product) in the quick tier.
+const nFullBases = 4
 
 type boundsVal struct{ MinLon, MinLat, MaxLon, MaxLat float64 }
 
@@ -143,7 +150,18 @@ var boundsAlphabet = []boundsVal{
 	// thorough only
 	{-180, -90, 180, 90},
 	{-122.431640625, 37.78808138412046, -122.4261474609375, 37.792422407988305}, // a z16 tile
+	// boundary boxes (edge pass in quick, full product in thorough). The box is
+	// the caller's: every bound goes to its documented position as given.
+	{0, 0, 0, 0},                     // every coordinate zero
+	{-0.5, -0.25, 0, 0},              // zero as the upper bounds only
+	{0, 0, 0.000001, 0.000001},       // zero as the lower bounds, one step of the 6th decimal
+	{170, -10, -170, 10},             // across the antimeridian: MinLon > MaxLon
+	{179.999999, 89.999999, 180, 90}, // the documented limits and one step below
 }
+
+// edgeBounds are the indexes of boundsAlphabet the quick tier runs in the edge
+// pass (the whole-world box was thorough-only before).
+var edgeBounds = []int{3, 5, 6, 7, 8, 9}
 
 type atVal struct {
 	T    time.Time
@@ -155,9 +173,31 @@ var atAlphabet = []atVal{
 	{time.Date(2016, 1, 1, 0, 0, 0, 0, time.UTC), "2016-01-01T00:00:00Z", "utc"},
 	{time.Date(2012, 6, 15, 23, 30, 45, 987654321, time.FixedZone("", -7*3600)), "2012-06-16T06:30:45Z", "zone -07:00 with nanoseconds"},
 	{time.Date(2020, 2, 29, 0, 0, 0, 0, time.FixedZone("", 5*3600+1800)), "2020-02-28T18:30:00Z", "zone +05:30"},
+	// boundary instants (index >= nFullAts: edge pass in quick, full product in
+	// thorough). Years outside 0001..9999 have no RFC 3339 spelling: not enumerated.
+	{time.Time{}, "0001-01-01T00:00:00Z", "the zero time.Time"},
+	{time.Unix(0, 0), "1970-01-01T00:00:00Z", "unix 0, local zone of the process"},
+	{time.Date(1969, 12, 31, 23, 59, 59, 500000000, time.UTC), "1969-12-31T23:59:59Z", "before 1970 with half a second (cut, not rounded towards 1970)"},
+	{time.Date(2300, 1, 1, 12, 0, 0, 0, time.UTC), "2300-01-01T12:00:00Z", "after 2262: outside the int64 nanosecond range"},
+	{time.Date(9999, 12, 31, 23, 59, 59, 999999999, time.UTC), "9999-12-31T23:59:59Z", "last second of the last 4-digit year"},
+	{time.Date(1883, 11, 18, 12, 0, 0, 0, time.FixedZone("LMT", -(4*3600+56*60+2))), "1883-11-18T16:56:02Z", "zone offset with seconds (-04:56:02)"},
 }
 
-var queryAlphabet = []string{"asdf", "", "a b&c=d/\u00e9?#+%25"}
+const nFullAts = 3
+
+// queryAlphabet[:nFullQueries] go through the full product in both tiers, the
+// rest through the edge pass in quick and the full product in thorough.
+var queryAlphabet = []string{"asdf", "", "a b&c=d/\u00e9?#+%25",
+	" ",                             // whitespace only
+	"\t\r\n\x00;",                   // control characters, NUL, the old parameter separator
+	"%zz",                           // looks like a broken percent-escape
+	"x&limit=5&closed=0",            // looks like the documented options
+	"\u65e5\u672c\u8a9e \U0001F600", // 3- and 4-byte UTF-8
+	"\xff\xfe\x80",                  // not UTF-8 at all: a Go string is bytes
+	strings.Repeat("long query ", 500),
+}
+
+const nFullQueries = 3
 
 // ---- expectation for one case ----
 
@@ -168,6 +208,10 @@ type wantURL struct {
 	IDs                *[]int64            // multiset comparison
 	IDsParam           string
 	At                 *atVal
+	// Repeat[k] = n > 1: the same option with the same value was passed n times.
+	// The documentation does not say whether the parameter is then sent once or
+	// n times; both are accepted (1..n occurrences, every one the given value).
+	Repeat map[string]int
 }
 
 // optionsInvalid: the documentation of Limit says valid values are [1,10000].
@@ -203,12 +247,23 @@ func expectURL(e *endpoint, c *Case) wantURL {
 			b := boundsAlphabet[c.Bounds]
 			w.BBox = &b
 		case "{q}":
-			w.Params[kv[0]] = []string{c.Query}
+			w.Params[kv[0]] = []string{c.query()}
 		default:
 			w.Params[kv[0]] = []string{kv[1]}
 		}
 	}
+	seen := map[Opt]int{}
 	for _, o := range c.Opts {
+		seen[o]++
+		if seen[o] > 1 {
+			// enumerated only with identical values (see optShapes / edgeOptShapes)
+			if w.Repeat == nil {
+				w.Repeat = map[string]int{}
+			}
+			k := o.Kind
+			w.Repeat[k] = seen[o]
+			continue
+		}
 		switch o.Kind {
 		case "at":
 			a := atAlphabet[o.N]
@@ -220,6 +275,20 @@ func expectURL(e *endpoint, c *Case) wantURL {
 		}
 	}
 	return w
+}
+
+// dedupRepeat reduces got to one value when it is 2..n copies of one value and
+// the option was passed n times with that value.
+func dedupRepeat(got []string, n int) []string {
+	if n < 2 || len(got) < 2 || len(got) > n {
+		return got
+	}
+	for _, g := range got[1:] {
+		if g != got[0] {
+			return got
+		}
+	}
+	return got[:1]
 }
 
 type diff struct{ clause, msg string }
@@ -247,7 +316,7 @@ func compareURL(raw string, w wantURL) []diff {
 	seen := map[string]bool{}
 	for k, want := range w.Params {
 		seen[k] = true
-		got := q[k]
+		got := dedupRepeat(q[k], w.Repeat[k])
 		if !sameStrings(got, want) {
 			ds = append(ds, diff{"url", fmt.Sprintf("parameter %s=%q, documented %q", k, got, want)})
 		}
@@ -311,7 +380,7 @@ func compareURL(raw string, w wantURL) []diff {
 	}
 	if w.At != nil {
 		seen["at"] = true
-		got := q["at"]
+		got := dedupRepeat(q["at"], w.Repeat["at"])
 		ok := false
 		if len(got) == 1 {
 			if t, err := time.Parse(time.RFC3339, got[0]); err == nil {
